@@ -61,3 +61,28 @@ func (h *Handler) VerifSessionKeys() [][crypto.KeySize]byte {
 	}
 	return out
 }
+
+// VerifAttachPump registers a streaming-mode shell stream (so that
+// HandleStreamClose / Close find it) whose stdout is the given reader, and
+// runs pumpOutput on it in a new goroutine; done is closed when the pump
+// returns. The Session is an inert one (no process): Close on it returns at
+// once.
+func (h *Handler) VerifAttachPump(peerID identity.AgentID, streamID uint64, key *crypto.SessionKey, r io.Reader, done chan<- struct{}) {
+	finished := make(chan struct{})
+	close(finished)
+	ss := &ShellStream{
+		StreamID:     streamID,
+		PeerID:       peerID,
+		MetaReceived: true,
+		Session:      &Session{cancel: func() {}, done: finished},
+		StartTime:    time.Now(),
+		sessionKey:   key,
+	}
+	h.mu.Lock()
+	h.streams[streamID] = ss
+	h.mu.Unlock()
+	go func() {
+		defer close(done)
+		h.pumpOutput(ss, func() io.Reader { return r }, EncodeStdout)
+	}()
+}
